@@ -33,7 +33,11 @@ class ScriptedSocket(socket.socket):
             raise TimeoutError("scripted timeout")
         if entry == "oserror":
             self.log.append((bufsize, "oserror"))
-            raise OSError("scripted os error")
+            # OS errors come in many classes: rotate through a few (all are OSError)
+            self._nerr = getattr(self, "_nerr", 0) + 1
+            kinds = [OSError("scripted os error"), ConnectionResetError(104, "reset"), InterruptedError(4, "interrupted"),
+                     OSError(113, "no route to host"), BlockingIOError(11, "would block"), BrokenPipeError(32, "broken pipe")]
+            raise kinds[(self._nerr + len(self._data)) % len(kinds)]
         if entry == "close":
             self._closed = True
         if self._closed:
